@@ -93,7 +93,7 @@ fn model_valid(p: Prod, iri: bool, s: &str) -> bool {
 
 /// Writes `<dir>/valid` and `<dir>/invalid` crates plus `<dir>/expected.json`.
 pub fn generate_crates(dir: &str, thorough: bool, seed: u64, repo: &str) -> std::io::Result<()> {
-    let per_macro = if thorough { 1500 } else { 400 };
+    let per_macro = if thorough { 4000 } else { 400 };
     let mut valid: Vec<Lit> = Vec::new();
     let mut invalid: Vec<Lit> = Vec::new();
     let fixed_valid = ["s:", "http://a/b/c/d;p?q#f", "s://u:p@[::1]:80/a/./b/../c?q#f", "s:/.//a", "s:a:b", "x-y.z+1://h", "s:%41%c3%a9", "S://H/%7e"];
